@@ -417,7 +417,12 @@ fn random_opts(rng: &mut Rng, d: &AirDesc, field: FieldId, max_lde: usize) -> Op
         let f = *rng.pick(&[2usize, 4, 8, 16]);
         let r = (1usize << rng.below(9)) - 1;
         let lde = n * b;
-        let q = if rng.chance(1, 8) { rng.range(1, (lde - 1).min(255) as u64) } else { rng.range(1, (lde - 1).min(12) as u64) } as usize;
+        // mostly few queries; sometimes many (lots of duplicate positions), sometimes as many as allowed
+        let q = match rng.below(10) {
+            0 => (lde - 1).min(255),
+            1 | 2 => rng.range(1, (lde - 1).min(255) as u64) as usize,
+            _ => rng.range(1, (lde - 1).min(12) as u64) as usize,
+        };
         let g = if rng.chance(1, 4) { rng.range(1, 6) as u32 } else { 0 };
         let exts: Vec<u8> = (1..=3u8).filter(|x| field.supports_ext(*x)).collect();
         let x = *rng.pick(&exts);
@@ -504,7 +509,220 @@ fn power_desc(n: usize, d: u32, e: usize, seq_stride: usize) -> AirDesc {
     }
 }
 
+/// a description exercising, at once: a degree-`d` rule with a structured periodic column, a
+/// sequence assertion of `n / stride` values starting at step `first` on a free column, and
+/// optionally an auxiliary segment (pointwise column with the matching aux sequence assertion, a
+/// running product, `extra` scaled copies of the aux constraint) with `rands` random elements
+/// (0: constants instead) and a Lagrange kernel column
+fn feature_desc(n: usize, d: u32, stride: usize, first: usize, periodic: Vec<u128>, aux: bool, rands: usize, lagrange: bool, extra: usize) -> AirDesc {
+    let rule = Expr::add(Expr::pow(Expr::Cur(0), d), Expr::Per(0));
+    let c = Expr::sub(Expr::Nxt(0), rule.clone());
+    let mut desc = AirDesc {
+        width: 2,
+        trace_len: n,
+        exemptions: 1,
+        tail_junk: false,
+        periodic: vec![periodic],
+        cols: vec![ColGen::Step { init: None, expr: rule }, ColGen::Rand],
+        constraints: vec![Constraint { degree: Degree::new(d as usize), expr: c }],
+        assertions: vec![AssertDesc::sequence(1, first, stride), AssertDesc::single(0, 0)],
+        aux: None,
+    };
+    if aux {
+        let r = |i: usize| if rands == 0 { Expr::Const(3 + i as u128) } else { Expr::Rand(i % rands) };
+        let f = Expr::add(Expr::mul(r(0), Expr::Cur(1)), r(1));
+        let c0 = Expr::sub(Expr::AuxCur(0), f.clone());
+        let step = Expr::mul(Expr::AuxCur(1), Expr::add(Expr::Cur(0), r(0)));
+        let c1 = Expr::sub(Expr::AuxNxt(1), step.clone());
+        let mut constraints = vec![Constraint { degree: Degree::new(1), expr: c0.clone() }, Constraint { degree: Degree::new(2), expr: c1 }];
+        for k in 0..extra {
+            constraints.push(Constraint { degree: Degree::new(1), expr: Expr::mul(Expr::Const(2 + k as u128), c0.clone()) });
+        }
+        desc.aux = Some(AuxDesc {
+            width: 2 + lagrange as usize,
+            num_rands: rands,
+            lagrange,
+            cols: vec![AuxGen::Fn(f), AuxGen::Acc { init: Expr::Const(1), step }],
+            constraints,
+            assertions: vec![
+                AuxAssertDesc { a: AssertDesc::sequence(0, first, stride), value: Expr::add(Expr::mul(r(0), Expr::PubSeq(0)), r(1)) },
+                AuxAssertDesc { a: AssertDesc::single(1, 0), value: Expr::Const(1) },
+            ],
+        });
+    }
+    desc
+}
+
+fn hardening_ops(tier: Tier, emit: &mut dyn FnMut(String)) {
+    let mut both = |d: &AirDesc, field: FieldId, hash: HashId, o: &OptSpec, seed: u64, emit: &mut dyn FnMut(String)| {
+        emit(run_line(field, hash, o, seed, d));
+        emit(glue_line(d, o));
+    };
+    // structured periodic columns of several cycle lengths
+    let pers: Vec<Vec<u128>> = vec![
+        vec![3, 5, 3, 5],
+        vec![7, 7, 7, 7],
+        vec![0, 0, 0, 0, 0, 0, 0, 0],
+        vec![0, 0, 9, 0],
+        vec![1, 2, 1, 2, 1, 2, 1, 2],
+        vec![4, 6, 1, 1, 4, 6, 1, 1],
+        vec![1, 0],
+        vec![2, 2],
+        vec![1, 1, 1, 0, 1, 1, 1, 0, 1, 1, 1, 0, 1, 1, 1, 0],
+    ];
+    // every pair (ce blowup, lde blowup) with ce <= lde, with: sequence of >= 64 values at a non-zero
+    // first step (large-polynomial path) and of < 64 values, main and aux; Lagrange column; aux
+    // random elements 0 and > 0; #aux constraints below / equal / above #main constraints
+    let mut k = 0usize;
+    for (d, ce) in [(2u32, 2usize), (3, 2), (4, 4), (5, 4), (6, 8), (9, 8)] {
+        let mut b = ce;
+        while b <= if tier == Tier::Quick { 32 } else { 128 } {
+            for (n, stride, first) in [(128usize, 2usize, 1usize), (16, 2, 1), (256, 4, 3), (64, 2, 0)] {
+                if n > 64 && d > 5 && tier == Tier::Quick && b > 16 {
+                    continue;
+                }
+                let per = pers[k % pers.len()].clone();
+                let (aux, rands, lag, extra) = match k % 6 {
+                    0 => (false, 0, false, 0),
+                    1 => (true, 2, false, 0),
+                    2 => (true, 0, true, 0),
+                    3 => (true, 1, true, 2),
+                    4 => (true, 0, false, 1),
+                    _ => (true, 3, true, 0),
+                };
+                let field = FieldId::ALL[k % 3];
+                let hash = HashId::for_field(field)[k % HashId::for_field(field).len()];
+                let exts: Vec<u8> = (1..=3u8).filter(|x| field.supports_ext(*x)).collect();
+                let o = OptSpec::new(3 + k % 5, b, 0, exts[k % exts.len()], [2usize, 4, 8, 16][k % 4], [0usize, 1, 3, 7, 255][k % 5]);
+                let desc = feature_desc(n, d, stride, first, per, aux, rands, lag, extra);
+                if fri_well_formed(n * b, b, o.folding, o.remainder) {
+                    both(&desc, field, hash, &o, 30 + k as u64, emit);
+                } else {
+                    both(&desc, field, hash, &OptSpec { folding: 2, ..o }, 30 + k as u64, emit);
+                }
+                k += 1;
+            }
+            b *= 2;
+        }
+    }
+    // every structured periodic column, multiplied into the rule as well (degenerate: lower actual degree)
+    for (i, per) in pers.iter().enumerate() {
+        let mut d = feature_desc(16, 2, 2, 1, per.clone(), i % 2 == 0, 1, i % 3 == 0, 0);
+        both(&d, FieldId::F64, HashId::Blake3_256, &OptSpec::new(4, 4, 0, 1, 2, 1), 60, emit);
+        let rule = Expr::add(Expr::mul(Expr::Per(0), Expr::pow(Expr::Cur(0), 2)), Expr::Const(3));
+        d.cols[0] = ColGen::Step { init: None, expr: rule.clone() };
+        d.constraints[0] = Constraint { degree: Degree { base: 2, cycles: vec![per.len()] }, expr: Expr::sub(Expr::Nxt(0), rule) };
+        both(&d, FieldId::F128, HashId::Blake3_256, &OptSpec::new(4, 8, 0, 1, 2, 1), 61, emit);
+    }
+    // low-degree periodic columns (field specific): degree 0, 1, 2, 3 for cycles 4, 8, 16
+    for field in FieldId::ALL {
+        for (c, deg) in [(4usize, 1usize), (8, 1), (8, 2), (8, 3), (16, 1), (16, 5), (2, 0), (8, 0)] {
+            let per = low_degree_periodic(field, c, deg, 7 + c as u64 + deg as u64);
+            let d = feature_desc(16, 2, 2, 1, per.clone(), deg % 2 == 1, 1, false, 0);
+            both(&d, field, HashId::Blake3_256, &OptSpec::new(4, 4, 0, 1, 2, 1), 72, emit);
+            let mut m = d.clone();
+            let rule = Expr::add(Expr::mul(Expr::Per(0), Expr::Cur(0)), Expr::Const(3));
+            m.cols[0] = ColGen::Step { init: None, expr: rule.clone() };
+            m.constraints[0] = Constraint { degree: Degree { base: 1, cycles: vec![c] }, expr: Expr::sub(Expr::Nxt(0), rule) };
+            both(&m, field, HashId::Sha3_256, &OptSpec::new(4, 8, 0, 1, 2, 1), 73, emit);
+        }
+    }
+    // several cycle lengths at once
+    {
+        let mut d = feature_desc(32, 2, 2, 1, vec![3, 5, 3, 5], true, 2, true, 0);
+        d.periodic.push(vec![1, 2]);
+        d.periodic.push((1..=32).collect());
+        d.periodic.push(vec![9; 8]);
+        let rule = Expr::add(Expr::add(Expr::mul(Expr::Per(1), Expr::pow(Expr::Cur(0), 2)), Expr::mul(Expr::Per(2), Expr::Cur(1))), Expr::add(Expr::Per(0), Expr::Per(3)));
+        d.cols[0] = ColGen::Step { init: None, expr: rule.clone() };
+        d.constraints[0] = Constraint { degree: Degree { base: 2, cycles: vec![2] }, expr: Expr::sub(Expr::Nxt(0), rule) };
+        for field in FieldId::ALL {
+            both(&d, field, HashId::Blake3_256, &OptSpec::new(6, 8, 0, 1, 4, 3), 62, emit);
+        }
+    }
+    // assertion value sequences: constant / sub-periodic / low-degree columns under a sequence assertion
+    for (g, name) in [(ColGen::Const(Some(5)), 0), (ColGen::Const(Some(0)), 1), (ColGen::Cyc(2), 2), (ColGen::Cyc(4), 3), (ColGen::LowDeg(1), 4), (ColGen::LowDeg(0), 5), (ColGen::Counter, 6)] {
+        for (n, stride, first) in [(128usize, 2usize, 1usize), (32, 2, 1), (16, 4, 0)] {
+            let mut d = feature_desc(n, 2, stride, first, vec![3, 5, 3, 5], name % 2 == 0, 1, false, 0);
+            d.cols[1] = g.clone();
+            both(&d, FieldId::F64, HashId::Blake3_256, &OptSpec::new(5, 8, 0, 2, 4, 3), 63, emit);
+        }
+    }
+    // total width 255 in every kind of split, with and without the Lagrange column; segment widths
+    // around the row-matrix segment width 8
+    for mw in [1usize, 2, 7, 8, 9, 120, 127, 128, 246, 247, 248, 249, 252, 253, 254] {
+        let aw = 255 - mw;
+        both(&wide_desc(mw, 8, 3.min(mw), aw, false), FieldId::F64, HashId::Blake3_256, &OptSpec::new(3, 2, 0, 1, 2, 0), 64, emit);
+        if aw >= 2 {
+            both(&wide_desc(mw, 8, 3.min(mw), aw, true), FieldId::F62, HashId::Blake3_256, &OptSpec::new(3, 4, 0, 2, 2, 0), 65, emit);
+        }
+    }
+    for aw in [1usize, 2, 3, 7, 8, 9, 15, 16, 17] {
+        for ext in [1u8, 2, 3] {
+            both(&wide_desc(3, 8, 2, aw, false), FieldId::F64, HashId::Rp64_256, &OptSpec::new(3, 4, 0, ext, 2, 0), 66, emit);
+            if aw >= 2 {
+                both(&wide_desc(9, 8, 2, aw, true), FieldId::F64, HashId::Blake3_192, &OptSpec::new(3, 8, 0, ext, 2, 0), 67, emit);
+            }
+        }
+    }
+    // composition columns around the segment width: degrees 8, 9, 10 -> 7, 8, 9 columns (and ce < lde)
+    for d in [7u32, 8, 9, 10, 16, 17] {
+        for b in [16usize, 32] {
+            both(&power_desc(16, d, 1, 0), FieldId::F64, HashId::Blake3_256, &OptSpec::new(4, b, 0, 2, 4, 1), 68, emit);
+        }
+    }
+    // queries: as many as the domain allows (mostly duplicates), and duplicates with few queries
+    for (q, b, n) in [(15usize, 2usize, 8usize), (31, 4, 8), (63, 8, 8), (255, 32, 8), (255, 4, 64), (129, 2, 128), (128, 2, 128), (2, 2, 8), (7, 2, 8)] {
+        both(&power_desc(n, 2, 1, 0), FieldId::F64, HashId::Blake3_256, &OptSpec::new(q, b, 0, 1, 2, 0), 69, emit);
+        both(&wide_desc(3, n, 2, 3, true), FieldId::F128, HashId::Sha3_256, &OptSpec::new(q, b, 0, 2, 4, 3), 69, emit);
+    }
+    // FRI schedules with 0, 1 and many layers for every folding factor (remainder domain = LDE domain, ...)
+    for f in [2usize, 4, 8, 16] {
+        for (n, b, r) in [(8usize, 2usize, 7usize), (8, 4, 15), (16, 2, 15), (64, 2, 63), (64, 2, 31), (256, 16, 0), (256, 2, 1), (128, 8, 7)] {
+            let o = OptSpec::new(5, b, 0, 1, f, r);
+            if fri_well_formed(n * b, b, f, r) {
+                both(&power_desc(n, 2, 1, 0), FieldId::F62, HashId::Rp62_248, &o, 70, emit);
+            }
+        }
+    }
+    // for every folding factor: 0..3 layers x 1, 2, 4 remainder coefficients (n = f^layers * coefficients)
+    for f in [2usize, 4, 8, 16] {
+        for layers in 0..=3u32 {
+            for rc in [1usize, 2, 4] {
+                let n = f.pow(layers) * rc;
+                if n < 8 || n > 4096 {
+                    continue;
+                }
+                for b in [2usize, 8] {
+                    if n * b > 16384 {
+                        continue;
+                    }
+                    let o = OptSpec::new(7, b, 0, 1, f, rc - 1);
+                    if fri_well_formed(n * b, b, f, rc - 1) && fri_schedule(n * b, b, f, rc - 1).0 == layers as usize {
+                        both(&power_desc(n, 2, 1, 0), FieldId::F64, HashId::Blake3_256, &o, 74, emit);
+                    }
+                }
+            }
+        }
+    }
+    // exemptions at both bounds with auxiliary segment and Lagrange column
+    for n in [8usize, 16, 32] {
+        for e in [1usize, 2, n / 2, n / 2 + 1] {
+            let mut d = wide_desc(2, n, 2, 3, true);
+            d.constraints.truncate(0);
+            d.cols = vec![ColGen::Step { init: None, expr: Expr::add(Expr::Cur(0), Expr::Cur(1)) }, ColGen::Rand];
+            d.constraints.push(Constraint { degree: Degree::new(1), expr: Expr::sub(Expr::Nxt(0), Expr::add(Expr::Cur(0), Expr::Cur(1))) });
+            if e <= d.max_exemptions() {
+                d.exemptions = e;
+                d.tail_junk = e > 1;
+                both(&d, FieldId::F64, HashId::Blake3_256, &OptSpec::new(4, 8, 0, 1, 2, 1), 71, emit);
+            }
+        }
+    }
+}
+
 fn boundary_ops(rng: &mut Rng, tier: Tier, emit: &mut dyn FnMut(String)) {
+    hardening_ops(tier, emit);
     let base = OptSpec::new(4, 4, 0, 1, 4, 3);
     let mut both = |d: &AirDesc, field: FieldId, hash: HashId, o: &OptSpec, seed: u64, emit: &mut dyn FnMut(String)| {
         emit(run_line(field, hash, o, seed, d));
@@ -702,6 +920,11 @@ impl Prop for P {
 
     fn gen(&self, rng: &mut Rng, tier: Tier, n: usize, emit: &mut dyn FnMut(String)) {
         let n = default_n(tier, 12000, 120000, n);
+        // the supervisor hands contiguous chunks of the op list to its 16 workers: deal the lines out
+        // round-robin so that the heavy boundary cases do not all land on the first worker
+        let mut all: Vec<String> = vec![];
+        let real_emit = emit;
+        let emit: &mut dyn FnMut(String) = &mut |l| all.push(l);
         boundary_ops(rng, tier, emit);
         glue_ops(rng, n / 2, emit);
         // random descriptions x random admissible options x fields x hashers
@@ -719,11 +942,16 @@ impl Prop for P {
                 degenerate: i % 12 == 0,
                 sequences: true,
             };
-            let d = random_desc(rng, &bud);
+            let d = random_desc_for(rng, &bud, field);
             let o = random_opts(rng, &d, field, if i % 10 == 0 { 2048 } else { 512 });
             emit(run_line(field, hash, &o, rng.u64() % 1_000_000, &d));
             if i % 4 == 0 {
                 emit(glue_line(&d, &o));
+            }
+        }
+        for k in 0..16 {
+            for i in (k..all.len()).step_by(16) {
+                real_emit(std::mem::take(&mut all[i]));
             }
         }
     }
